@@ -27,4 +27,4 @@ for d in dirs:
         print(name, json.dumps(res), flush=True)
     finally:
         subprocess.run(['git', '-C', REPO, 'checkout', '--', '.'])
-        subprocess.run('git -C ' + ROOT + ' checkout -- evidence lean/Bma400/Generated.lean lean/Bma400/GeneratedEnc.lean lean/Bma400/GeneratedBld.lean lean/Bma400/GeneratedApi.lean lean/Bma400/GeneratedFrames.lean lean/Bma400/GeneratedFifo.lean', shell=True)
+        subprocess.run('git -C ' + ROOT + ' checkout -- evidence lean/Bma400/Generated.lean lean/Bma400/GeneratedEnc.lean lean/Bma400/GeneratedBld.lean lean/Bma400/GeneratedApi.lean lean/Bma400/GeneratedFrames.lean lean/Bma400/GeneratedFifo.lean lean/Bma400/GeneratedSet.lean', shell=True)
